@@ -516,6 +516,7 @@ def generated_phase(run, exe, prop, tier, e):
     ntrace = 4 if tier == "quick" else 24
     base = seed() * 100000
     exe2 = build("h_mu", extra_defs=kdefs(2))
+    exeb = build("h_mub")
     wanted = ORACLE_OF.get(prop, set()) | ALWAYS
     shutil.copy(os.path.join(SPEC, "MuTrace.tla"), os.path.join(MC, "MuTrace.tla"))
     variants(exe)
@@ -523,11 +524,14 @@ def generated_phase(run, exe, prop, tier, e):
     def one(i):
         conf = genprog.gen(base + i, prop)
         k2 = (i % 2 == 1)
+        binary = (i % 8 == 6)          # one program in eight on the binary-semaphore flavour (V sets the count to 1: a stale post is not remembered twice)
         if k2:
             conf["kthr"] = 2
-        res = run_harness_env(exe2 if k2 else exe, ["random", str(nruns), str(base + i), muconf.init_line(conf), REPLAYS], e)
+        if binary:
+            conf["Binary"] = True
+        res = run_harness_env(exe2 if k2 else (exeb if binary else exe), ["random", str(nruns), str(base + i), muconf.init_line(conf), REPLAYS], e)
         tv = None
-        if i < ntrace and not k2:
+        if i < ntrace and not k2 and not binary:
             cv = with_variants(conf, exe)
             tr = os.path.join(WORK, "tlc", "gtrace_%s_%d.ndjson" % (prop, i))
             run_harness_env(exe, ["random", "40", str(base + 77 + i), muconf.init_line(cv), REPLAYS, tr], e)
@@ -562,7 +566,7 @@ def generated_phase(run, exe, prop, tier, e):
                 else:
                     run.note("DIVERGENCE: recorded executions of generated program %d are not behaviours of Mu.tla (longest matched prefix %d of %d events); not a violation by itself" % (base + i, matched, nlines))
                     run.cov["conformant"] = False
-    run.cov["generated_programs"] = {"programs": nprog, "schedules_each": nruns, "threads": "3-5", "on_K2_build": nprog // 2, "traces_validated": ntrace,
+    run.cov["generated_programs"] = {"programs": nprog, "schedules_each": nruns, "threads": "3-5", "on_K2_build": nprog // 2, "on_binary_semaphore_flavour": nprog // 8, "traces_validated": ntrace,
                                      "generator": "tools/genprog.py (seed %d..%d, focus %s)" % (base, base + nprog - 1, prop), "violations": nv}
 
 
